@@ -411,7 +411,7 @@ pub fn run(_tier: Tier, shard: Shard, rep: &mut Report) {
         }
         // every call of the fault-free run fails in turn, in every plausible way (EXDEV on rename/link included)
         if let Some(r) = &probe {
-            if case.builder == 0 && (_tier == Tier::Thorough || case.cell.size != Size::Empty) {
+            if _tier == Tier::Thorough || (case.builder == 0 && case.cell.size != Size::Empty) {
                 for (k, ev) in r.trace.iter().enumerate() {
                     if ev.kind == Kind::Fsync {
                         continue; // above
@@ -452,11 +452,11 @@ fn concurrent_programs() -> Vec<(crate::sched::Program, crate::props::e1::Mode)>
             create_write_dir: true,
         };
         let v = |t: usize| e1::wval(t, 0, Size::Five);
-        out.push((mk("put|deleter", vec![vec![api(Op::Put(k.clone(), v(0)))], vec![POp::Unlink(loc.clone())]], pre.clone()), Mode::Bounded(2)));
-        out.push((mk("puttemp|deleter", vec![vec![api(Op::PutTemp(k.clone(), v(0)))], vec![POp::Unlink(loc.clone())]], pre.clone()), Mode::Bounded(2)));
-        out.push((mk("ensure|deleter", vec![vec![api(Op::Ensure(k.clone(), Pop::Value(v(0))))], vec![POp::Unlink(loc.clone())]], pre.clone()), Mode::Bounded(2)));
-        out.push((mk("put|set", vec![vec![api(Op::Put(k.clone(), v(0)))], vec![api(Op::Set(k.clone(), v(1)))]], vec![]), Mode::Bounded(2)));
-        out.push((mk("ensure|ensure", vec![vec![api(Op::Ensure(k.clone(), Pop::Value(v(0))))], vec![api(Op::Ensure(k.clone(), Pop::Value(v(1))))]], vec![]), Mode::Bounded(2)));
+        out.push((mk("put|deleter", vec![vec![api(Op::Put(k.clone(), v(0)))], vec![POp::Unlink(loc.clone())]], pre.clone()), crate::props::e1::side_bound()));
+        out.push((mk("puttemp|deleter", vec![vec![api(Op::PutTemp(k.clone(), v(0)))], vec![POp::Unlink(loc.clone())]], pre.clone()), crate::props::e1::side_bound()));
+        out.push((mk("ensure|deleter", vec![vec![api(Op::Ensure(k.clone(), Pop::Value(v(0))))], vec![POp::Unlink(loc.clone())]], pre.clone()), crate::props::e1::side_bound()));
+        out.push((mk("put|set", vec![vec![api(Op::Put(k.clone(), v(0)))], vec![api(Op::Set(k.clone(), v(1)))]], vec![]), crate::props::e1::side_bound()));
+        out.push((mk("ensure|ensure", vec![vec![api(Op::Ensure(k.clone(), Pop::Value(v(0))))], vec![api(Op::Ensure(k.clone(), Pop::Value(v(1))))]], vec![]), crate::props::e1::side_bound()));
     }
     out
 }
